@@ -156,11 +156,14 @@ def check(ctx):
         ctx.guard('R2.getters', fsite(gf), rg)
     # first state given by the user is stored as is
     for c in [c for c in instances(p, 'hep::vegas_chkpt::vegas_chkpt') if not c.is_implicit
-              and [q.name for q in c.params] == ['pdf', 'alpha']]:
+              and len(c.params) == 2 and 'vegas_pdf' in (c.params[0].type or '')]:
         def rf(c=c):
             s, ex = summarise(p, c)
             v = fld(s.this, 'pdf_')
-            if v == ('vlist', sym('pdf')):
+            pg = sym([q.name for q in c.params if 'vegas_pdf' in (q.type or '')][0])
+            # one-element vector holding the user grid, however it is built ({pdf}, push_back, (1, pdf))
+            one = T.size(v) == T.ONE and T.sel(v, T.ZERO) == pg
+            if v == ('vlist', pg) or one:
                 ctx.holds('R5.user_grid', fsite(c), 'the user supplied grid is the first grid')
             else:
                 ctx.violation('R5.user_grid', fsite(c), 'the user supplied grid is not stored as the first grid',
